@@ -32,7 +32,11 @@ class Instance:
         self.defs = list(self.h.get("defs", [])) + list(defs)
         self.cap = cap or self.h.get("cap", 120)
         self.rss = rss or self.h.get("rss", 1.0)
-        self.flags = list(self.h.get("flags", [])) + list(flags or [])
+        base = list(self.h.get("flags", []))
+        if flags and "--unwind" in flags and "--unwind" in base:
+            k = base.index("--unwind")      # an instance-level bound replaces the harness default
+            del base[k:k + 2]
+        self.flags = base + list(flags or [])
         self.tus = list(tus) if tus is not None else list(self.h.get("tus", []))
         self.tag = inst_tag(hname, cfg, self.defs + self.flags + self.tus)
         self.label = label or (hname + "[" + cfg + (" " + " ".join(defs) if defs else "") + "]")
